@@ -242,7 +242,7 @@ func runNative(cfg *RunConfig, ld *Loaded, runs []*HarnessRun, cases []*replayCa
 	cf := filepath.Join(tmp, "cases.json")
 	os.WriteFile(cf, cb, 0o644)
 	sort.Strings(pkgPaths)
-	args := append([]string{"test", "-vet=off", "-count=1", "-run", "^TestVerifReplay$", "-timeout", "600s", "-v", "-overlay", ovf}, pkgPaths...)
+	args := append([]string{"test", "-vet=off", "-count=1", "-run", "^TestVerifReplay$", "-timeout", "180s", "-v", "-overlay", ovf}, pkgPaths...)
 	cmd := exec.Command("go", args...)
 	cmd.Dir = repoDir
 	cmd.Env = append(os.Environ(), "GOFLAGS=-mod=mod", "GOPROXY=off", "GOSUMDB=off", "GOTOOLCHAIN=local", "VERIF_CASES="+cf, "TMPDIR="+tmp)
